@@ -144,7 +144,8 @@ func (s *Signature) decodeTimeAndTimeZone(b []byte) {
 	if err1 != nil || err2 != nil {
 		return
 	}
-	if tzhours < 0 {
+	// The sign belongs to the minutes as well, also when the hours are zero ("-0030").
+	if timezone[0] == '-' {
 		tzmins *= -1
 	}
 
